@@ -586,6 +586,61 @@ def r5(repo, res):
     res.ob("C08.R5", f, loop, ok,
            expected="equivalent keys use the read parser's convention: insertion keyed at the base after it, deletion at its first deleted base; a deletion-insertion registers none",
            found=str(dict(eqs)), key="equivalent-keys")
+    # indels inside repeats: every equivalent placement (found by brute force on the reference: all left-anchored insertions / deletions
+    # that give the same haplotype) is registered under the key the read parser would produce for that placement -- position AND bases
+    G2 = "ACGTATATCCAGAGAGTTCAAAG"
+    gene2 = SeqGene(G2, lo)
+    sites2 = {(503, "insAT"): [0, 0], (510, "delAG"): [0, 0], (519, "delA"): [0, 0], (508, "delCCinsT"): [0, 0], (516, "insG"): [0, 0]}
+
+    def equivalents(pos1, ref, alt):
+        target = apply_variant_vcf(G2, pos1 - 1 - lo, ref, alt)
+        out = []
+        d = len(alt) - len(ref)
+        for q in range(len(G2)):
+            if d > 0:    # insertion of d bases after index q
+                x = target[q + 1:q + 1 + d]
+                if G2[:q + 1] + x + G2[q + 1:] == target:
+                    out.append(Obj(pos=lo + q + 1, ref=G2[q], alt=G2[q] + x))
+            elif d < 0 and q + 1 - d <= len(G2):   # deletion of -d bases after index q
+                if G2[:q + 1] + G2[q + 1 - d:] == target:
+                    out.append(Obj(pos=lo + q + 1, ref=G2[q:q + 1 - d], alt=G2[q]))
+        if not out or len(ref) > 1 and len(alt) > 1:
+            out = [Obj(pos=pos1, ref=ref, alt=alt)]
+        return out
+
+    def Variant2(chrom, pos, ref, alt, reference):
+        return Obj(generate_equivalents=lambda: equivalents(pos, ref, alt), ref=ref, alt=alt)
+
+    me2 = Obj(_indel_sites=sites2, gene=gene2, profile=Obj(indelpost=False, min_mapq=10, min_quality=10), _indel_sites_eqs={}, _prefix="")
+    try:
+        Lifted(f, funcs={"Variant": Variant2, "pysam.FastaFile": lambda q: Obj(path=q)})(me2, "tmpdir", None, "ref.fa")
+        got2 = dict(me2._indel_sites_eqs)
+    except Unfoldable as e:
+        res.err("C08.R5", f"_realign_indels outside folding language: {e}")
+        return
+    except Raised as e:
+        got2 = f"raises {e.kind}"
+    want2 = {}
+    for (pos, op) in sites2:
+        if op.startswith("del") and "ins" in op:
+            continue
+        target = apply_variant(G2, pos - lo, op)
+        L = len(op) - 3
+        for q in range(len(G2) + 1):
+            if op.startswith("ins"):     # parser key: the base after the inserted bases
+                x = target[q:q + L]
+                if G2[:q] + x + G2[q:] == target:
+                    want2[lo + q, "ins" + x] = (pos, op)
+            elif q + L <= len(G2) and G2[:q] + G2[q + L:] == target:
+                want2[lo + q, "del" + G2[q:q + L]] = (pos, op)
+    res.ob("C08.R5", f, loop, got2 == want2,
+           expected=f"indels inside repeats: each of the {len(want2)} placements that give the catalogue variant's haplotype is registered under the read parser's key for "
+                    "that placement (its own position and its own, possibly rotated, bases) and points to the catalogue variant; nothing else is registered",
+           found="agrees" if got2 == want2 else (got2 if isinstance(got2, str) else
+                                                 f"missing {sorted(set(want2) - set(got2))[:4]}, unexpected {sorted(set(got2) - set(want2))[:4]}, "
+                                                 f"wrong target {[k for k in want2 if k in got2 and got2[k] != want2[k]][:3]}"),
+           clause="an insertion is located between the same two reference bases wherever it is consumed (database, indel realignment, long-read matching)",
+           key="equivalent-keys:repeats")
     # the read parser counts a read towards the catalogued indel its own indel is equivalent to (the parser folded whole)
     from checks._reads import START, fold_parse_read, sample_read
 
@@ -649,6 +704,14 @@ MUTANTS = [
          old="            roff = max(0, j - e)", new="            roff = 0"),
     dict(name="R5 deletion-insertion equivalents registered as deletions", module="sam", expect="C08.R5",
          old="                    elif len(ev.ref) > len(ev.alt) and ev.ref.startswith(ev.alt):", new="                    elif len(ev.ref) > len(ev.alt):"),
+    dict(name="R5 equivalents keyed with the catalogue's bases (seeded C08_c3 shape)", module="sam", expect="C08.R5",
+         edits=[('                        no = "ins" + ev.alt[len(ev.ref) :]', '                        no = op'),
+                ('                        no = "del" + ev.ref[len(ev.alt) :]', '                        no = op')]),
+    dict(name="R1 strand conversion memoised per class without the strand in the key (seeded C08_c2 shape)", module="gene", expect=["C08.R1", "C08.R4"],
+         edits=[("    def _reverse_op(self, op: str) -> str:", "    _conv_cache = {}  # type: ignore\n\n    def _reverse_op(self, op: str) -> str:"),
+                ("                if self.strand < 0:\n                    if \">\" in op:\n                        l, r = op.split(\">\")\n                        op = f\"{rev_comp(l)}>{rev_comp(r)}\"\n                        pos = pos + len(l) - 1",
+                 "                key_ = (pos, op)\n                if key_ in self._conv_cache:\n                    pos, op = self._conv_cache[key_]\n                elif self.strand < 0:\n                    if \">\" in op:\n                        l, r = op.split(\">\")\n                        op = f\"{rev_comp(l)}>{rev_comp(r)}\"\n                        pos = pos + len(l) - 1"),
+                ("                pos -= 1  # Cast to 0-based index", "                self._conv_cache[key_] = (pos, op)\n                pos -= 1  # Cast to 0-based index")]),
     dict(name="R2 lookup sequence not complemented", module="gene", expect="C08.R3",
          old="                rev_comp(self.seq[self.chr_to_ref[i]])\n                if self.strand < 0", new="                self.seq[self.chr_to_ref[i]]\n                if self.strand < 0"),
     dict(name="R3 lookup sliced from RefSeq on the forward strand (seeded C08_3 shape)", module="gene", expect="C08.R3",
